@@ -51,6 +51,12 @@ def main() -> int:
         # without the driver nothing can be compared; the real-code oracle still runs below
         print("lean build failed:\n" + lb["build_log"][-1500:], file=sys.stderr)
     proofs_ok = lb["build_ok"] and not lb.get("forbidden") and not ob["failed"] and bool(ob["theorems"])
+    rechecked = None
+    if a.tier == "thorough" and lb["build_ok"]:
+        rechecked = leanbuild.recheck(prop)
+        if not rechecked["ok"]:
+            print("leanchecker rejected the compiled proofs:\n" + rechecked.get("log", ""), file=sys.stderr)
+            proofs_ok = False
 
     # 2. harness
     replay_key = None
@@ -135,7 +141,8 @@ def main() -> int:
                 "theorems_resting_on_them": sorted({t for d in ctx.disagreements for t in d["theorems"]}),
                 "disagreements": ctx.disagreements[:20],
                 "proofs": {"build_ok": lb["build_ok"], "forbidden": lb.get("forbidden"),
-                           "failed": ob["failed"], "build_log": lb["build_log"][-1500:] if not lb["build_ok"] else ""}}
+                           "failed": ob["failed"], "build_log": lb["build_log"][-1500:] if not lb["build_ok"] else "",
+                           **({"leanchecker": rechecked} if rechecked is not None else {})}}
         path = write_replay(prop, seed, 0, body)
         lines.append(f"VIOLATION property={prop} replay={path} no-failing-input-found")
     for l in lines:
@@ -158,7 +165,8 @@ def main() -> int:
         "known_findings_hit": {k: v["n"] for k, v in ctx.known_hits.items()},
         "explanation": getattr(mod, "EXPLANATION", ""),
         "lean": {"build_ok": lb["build_ok"], "source_hash": lb.get("hash"), "forbidden_hits": lb.get("forbidden"),
-                 "axioms": {t: lb.get("axioms", {}).get(t) for t in ob["theorems"]}},
+                 "axioms": {t: lb.get("axioms", {}).get(t) for t in ob["theorems"]},
+                 **({"leanchecker": {k: v for k, v in rechecked.items() if k != "log"}} if rechecked is not None else {})},
         "repo": str(REPO),
         **({"failing_input_search": search} if search else {}),
         **ctx.extra,
